@@ -317,6 +317,9 @@ fn gen_inline(rng: &mut Rng) -> InlineCase {
         "\\global\\catcode64=12 ", "\\global\\catcode64=14 ", "\\global\\catcode64=12 ",
         "\\global\\catcode64=13 \\gdef@{<A>}",
         "@a", "b@", "@", "\\relax@c", "\\x@y ",
+        // a byte-order mark and characters that only Unicode calls white space are ordinary
+        // characters wherever they stand
+        "\u{feff}M", "N\u{a0}", "O\u{b}", "\u{feff}",
     ];
     let gen_lines = |rng: &mut Rng, max_file: usize, allow_end: bool, nlines: usize| {
         let mut lines = vec![];
@@ -951,6 +954,32 @@ fn gen_streams(rng: &mut Rng, with_faults: bool) -> StreamCase {
         };
         files.push((s, rng.chance(1, 10), fault));
     }
+    // One case in eight has a long first file: 9 .. 65 lines (buffer seams, line tables and
+    // counters beyond one digit / one nibble), mostly plain, with a few groups spanning lines.
+    let mut long_lines = 0;
+    if rng.chance(1, 8) {
+        let n = [9usize, 10, 15, 16, 17, 31, 32, 33, 40, 64, 65][rng.below(11)];
+        let mut s = String::new();
+        let mut open = false;
+        for k in 0..n {
+            if !open && rng.chance(1, 9) && k + 2 < n {
+                s.push_str(&format!("{{g{k}"));
+                open = true;
+            } else if open && rng.chance(1, 2) {
+                s.push_str(&format!("h{k}}}"));
+                open = false;
+            } else if rng.chance(1, 10) {
+                // an empty line
+            } else {
+                s.push_str(&format!("L{k}"));
+            }
+            if k + 1 < n || rng.chance(2, 3) {
+                s.push('\n');
+            }
+        }
+        files[0] = (s, false, None);
+        long_lines = n;
+    }
     let mut terminal = vec![];
     for i in 0..rng.below(8) {
         terminal.push(format!(
@@ -967,17 +996,26 @@ fn gen_streams(rng: &mut Rng, with_faults: bool) -> StreamCase {
     } else {
         vec![0u8, 1, 15, 7, 3]
     };
-    let ns = if all16 { 16 } else { 1 + rng.below(nstreams.len()) };
-    let nops = 2 + rng.below(30);
+    let ns = if all16 {
+        16
+    } else if long_lines > 0 {
+        // few streams, so that the long file is actually read to its end
+        1 + rng.below(2)
+    } else {
+        1 + rng.below(nstreams.len())
+    };
+    let nops = 2 + rng.below(30) + long_lines + long_lines / 2;
     let mut ops = vec![];
     let mut depth = 0;
     for _ in 0..nops {
         let x = rng.below(100);
         let n = nstreams[rng.below(ns)];
+        // with a long file: fewer re-opens, more reads
+        let x = if long_lines > 0 && x < 22 && rng.chance(3, 4) { 40 } else { x };
         ops.push(if x < 22 {
             SOp::OpenIn {
                 n,
-                file: rng.below(nfiles),
+                file: if long_lines > 0 && rng.chance(3, 4) { 0 } else { rng.below(nfiles) },
             }
         } else if x < 75 {
             let n = if rng.chance(1, 12) {
